@@ -55,11 +55,33 @@ type Repo struct {
 	Strict  bool              `json:"strict"` // probe requires every command-bearing dependency to have ended in this invocation
 	// Overlap, when set, makes the probe detect two overlapping executions of one action (C31).
 	Overlap bool `json:"overlap,omitempty"`
+	// Defs, when set, adds package "defs" whose genrule produces a build_defs file that every other
+	// package subincludes and whose macro wraps genrule (so a build is needed during parsing).
+	Defs bool `json:"defs,omitempty"`
+	// Failure injection (C05): packages whose BUILD file has a syntax error; a failing defs target.
+	BadPkgs  []string `json:"bad_pkgs,omitempty"`
+	DefsFail bool     `json:"defs_fail,omitempty"`
 }
+
+const defsText = `def mygen(name, srcs, outs, cmd, deps=None, tools=None, binary=False, output_dirs=[], env={}, labels=[], visibility=None):
+    return genrule(
+        name = name,
+        srcs = srcs,
+        outs = outs,
+        cmd = cmd,
+        deps = deps,
+        tools = tools,
+        binary = binary,
+        output_dirs = output_dirs,
+        env = env,
+        labels = labels,
+        visibility = visibility,
+    )
+`
 
 // Clone returns a deep copy.
 func (r *Repo) Clone() *Repo {
-	c := &Repo{Config: r.Config, VLog: r.VLog, Strict: r.Strict, Overlap: r.Overlap, Files: map[string]string{}}
+	c := &Repo{Config: r.Config, VLog: r.VLog, Strict: r.Strict, Overlap: r.Overlap, Defs: r.Defs, DefsFail: r.DefsFail, BadPkgs: append([]string(nil), r.BadPkgs...), Files: map[string]string{}}
 	for k, v := range r.Files {
 		c.Files[k] = v
 	}
@@ -301,7 +323,11 @@ func (r *Repo) Render(t *Target) string {
 		for _, l := range t.SrcLabels {
 			srcs = append(srcs, localLabel(t.Pkg, l))
 		}
-		w("genrule(\n    name = %s,\n    srcs = %s,\n    outs = %s,\n    cmd = %s,\n", q(t.Name), qlist(trimSlash(srcs)), qlist(t.Outs), q(r.Command(t)))
+		rule := "genrule"
+		if r.Defs {
+			rule = "mygen"
+		}
+		w("%s(\n    name = %s,\n    srcs = %s,\n    outs = %s,\n    cmd = %s,\n", rule, q(t.Name), qlist(trimSlash(srcs)), qlist(t.Outs), q(r.Command(t)))
 		if len(t.Deps) > 0 {
 			w("    deps = %s,\n", qlist(t.Deps))
 		}
@@ -350,7 +376,23 @@ func (r *Repo) BuildFiles() map[string]string {
 	out := map[string]string{}
 	for _, t := range r.Targets {
 		p := filepath.Join(t.Pkg, "BUILD")
+		if r.Defs && out[p] == "" {
+			out[p] = "subinclude(\"//defs:defs\")\n\n"
+		}
 		out[p] += r.Render(t) + "\n"
+	}
+	for _, p := range r.BadPkgs {
+		out[filepath.Join(p, "BUILD")] += "\ngenrule(name = \"oops\", (\n"
+	}
+	if r.Defs {
+		cmd := "cp $SRCS $OUT"
+		if r.VLog != "" {
+			cmd = fmt.Sprintf(`mkdir "%s/defs.defs.started" 2>/dev/null || echo "DUP defs.defs" >> "%s/violations"; cp $SRCS $OUT; touch "%s/defs.defs.end"`, r.VLog, r.VLog, r.VLog)
+		}
+		if r.DefsFail {
+			cmd = "echo defs failing on purpose >&2; exit 1"
+		}
+		out["defs/BUILD"] = fmt.Sprintf("genrule(\n    name = \"defs\",\n    srcs = [\"defs.in\"],\n    outs = [\"defs.build_defs\"],\n    cmd = %s,\n    visibility = [\"PUBLIC\"],\n)\n", q(cmd))
 	}
 	return out
 }
@@ -467,6 +509,9 @@ type GenOpts struct {
 	Tools, DirOuts      bool
 	Sleep               int // max sleep in ms per action (0 = none)
 	Ops                 []string
+	MinTargets          int
+	DepOneIn            int  // a target takes each earlier target as a source with probability 1/DepOneIn (default 4)
+	Subinclude          bool // packages subinclude a generated build_defs file (a build is needed during parsing)
 }
 
 var defaultOps = []string{"full", "full", "names", "content", "wc", "sortu", "head", "const"}
@@ -491,6 +536,16 @@ func Generate(rng *rand.Rand, o GenOpts) *Repo {
 	npk := 1 + rng.Intn(o.MaxPkgs)
 	pkgs := pkgPool[:npk]
 	nt := 3 + rng.Intn(o.MaxTargets-2)
+	if o.MinTargets > 0 && nt < o.MinTargets {
+		nt = o.MinTargets + rng.Intn(o.MaxTargets-o.MinTargets+1)
+	}
+	if o.DepOneIn == 0 {
+		o.DepOneIn = 4
+	}
+	if o.Subinclude {
+		r.Defs = true
+		r.Files["defs/defs.in"] = defsText
+	}
 	for i := 0; i < nt; i++ {
 		pkg := pkgs[rng.Intn(len(pkgs))]
 		t := &Target{Pkg: pkg, Name: fmt.Sprintf("t%d", i), Salt: fmt.Sprintf("s%d", rng.Intn(1000))}
@@ -525,7 +580,7 @@ func Generate(rng *rand.Rand, o GenOpts) *Repo {
 				if prev.IsTool {
 					continue
 				}
-				if rng.Intn(4) == 0 && len(t.SrcLabels) < 3 {
+				if rng.Intn(o.DepOneIn) == 0 && len(t.SrcLabels) < 3+8/o.DepOneIn {
 					if t.Kind == "filegroup" && (prev.DirOut != "" || prev.ExtraDir) && rng.Intn(2) == 0 {
 						continue
 					}
@@ -620,4 +675,26 @@ func (r *Repo) Valid() bool {
 		}
 	}
 	return true
+}
+
+// Closure returns the labels of every target reachable from label through sources, deps and tools
+// (including label itself when it exists).
+func (r *Repo) Closure(label string) map[string]bool {
+	seen := map[string]bool{}
+	var walk func(l string)
+	walk = func(l string) {
+		if seen[l] {
+			return
+		}
+		t := r.Target(l)
+		if t == nil {
+			return
+		}
+		seen[l] = true
+		for _, i := range t.Inputs() {
+			walk(i)
+		}
+	}
+	walk(label)
+	return seen
 }
